@@ -192,7 +192,7 @@ end
 /-! ### leaf values and scalar requests -/
 
 /-- the kind of a non-null leaf value: the logical value together with what the column type says about it -/
-inductive LeafKind where
+inductive SlotKind where
   | truth (b : Bool)                                         -- Boolean
   | number (x : Int)                                         -- Int8 … UInt64
   | date (is64 : Bool) (x : Int)                             -- Date32 (days) / Date64 (milliseconds)
@@ -212,7 +212,7 @@ def intWidth : PrimTy → Bool
 
 /-- `.bool` / `.int` / `.float` values are read through the column type; `.str` / `.bin` values carry their kind themselves (a
 dictionary column is remembered: it answers fewer requests) -/
-def leafKind : Arr → LVal → LeafKind
+def leafKind : Arr → LVal → SlotKind
   | .boolean _ _ _, .bool b => .truth b
   | .prim ty _ _, .int x =>
     if intWidth ty then .number x
@@ -261,7 +261,7 @@ def createdText (asBytes : Bool) (t : Target) (text : Option Bytes) : Demand DVa
 def narrow (bits : Int) : Int := Int.ofNat (Float.convert Float.f64 Float.f32 (bits.toNat % 18446744073709551616))
 
 /-- **the leaf table**: a scalar request at a non-null leaf value -/
-def presentLeaf (c : TextCodec) (t : Target) : LeafKind → Demand DVal
+def presentLeaf (c : TextCodec) (t : Target) : SlotKind → Demand DVal
   | .truth b =>
     (match t with
      | .bool => .value (.bool b)
@@ -362,14 +362,14 @@ def entriesRead (fk fv : LVal → Demand DVal) : LEntries → Demand (List (DVal
   | .cons k v r => Demand.cons (Demand.both (fk k) (fv v)) (entriesRead fk fv r)
 
 /-- "enums without data as strings": the unit variant of that name -/
-def variantNamed : TVariants → Bytes → Demand DVal
+def unitVariantNamed : TVariants → Bytes → Demand DVal
   | .nil, _ => .fails
   | .cons n k rest, s =>
     if strBytes n == s then
       (match k with
        | .unit => .value (.enum (.str .transient (strBytes n)) .unit)
        | _ => .fails)
-    else variantNamed rest s
+    else unitVariantNamed rest s
 
 /-- a struct field NAME as a map key: a string (`String`, `ByteBuf`, `deserialize_any`), ignored, a `char` when it is one
 character, the unit variant of that name; a name cannot be borrowed and is nothing else -/
@@ -380,7 +380,7 @@ def nameAsKey (k : Target) (name : String) : Demand DVal :=
   | .string => .value (.str .owned (strBytes name))
   | .byteBuf => .value (.bytes .owned (strBytes name))
   | .char => (match name.toList with | [ch] => .value (.char ch.toNat) | _ => .fails)
-  | .enum byIndex vs => if byIndex then .fails else variantNamed vs (strBytes name)
+  | .enum byIndex vs => if byIndex then .fails else unitVariantNamed vs (strBytes name)
   | _ => .fails
 
 /-- the fields of a struct value as map entries -/
@@ -419,7 +419,7 @@ def byName (tnames : List String) (f : ArrFields → LFields → Demand (List (D
     if distinct (columnNames fs) && distinct tnames then (f fs lfs).map fun es => .map (DEntries.ofList es) else .unclaimed
   | _, _ => .fails
 
-def byteOf : DVal → UInt8
+def byteOfElem : DVal → UInt8
   | .int _ v => UInt8.ofNat v.toNat
   | _ => 0
 
@@ -458,12 +458,12 @@ def typedRead (c : TextCodec) : Target → Arr → LVal → Demand DVal
       (match variantOf fs t with
        | none => .fails
        | some (fm, child) => variantRead c vs (if byIndex then some t.toNat else none) fm.name child v)
-    | a, .str b => if textColumn a && !byIndex then variantNamed vs b else .fails
+    | a, .str b => if textColumn a && !byIndex then unitVariantNamed vs b else .fails
     | _, _ => .fails
   | .byteBuf, a, lv =>
     match a, lv with
     | .list _ _ _ _ el, .list items =>                         -- a `ByteBuf` from a list column: every element by value as `u8`
-      (itemsRead (fun v => presentScalar c (.int .u8) el v) items).map fun ds => .bytes .owned (ds.map byteOf)
+      (itemsRead (fun v => presentScalar c (.int .u8) el v) items).map fun ds => .bytes .owned (ds.map byteOfElem)
     | a, lv => presentScalar c .byteBuf a lv
   | .unit, a, lv => presentScalar c .unit a lv
   | .unitStruct, a, lv => presentScalar c .unitStruct a lv
